@@ -12,14 +12,18 @@ namespace SigV4.C19
 header with that (case-insensitive) name in arrival order. -/
 theorem firstOf_normalizeHeaders (hs : HeaderList) (name : Bytes) :
     firstOf (normalizeHeaders hs []) name = ((valuesOf hs name).head?).map normHeaderValue := by
-  sorry
+  unfold firstOf
+  rw [normalizeHeaders_get']
+  cases valuesOf hs name <;> simp
 
 /-- The first Authorization header is the one that is authenticated, however many follow. -/
 theorem first_authorization (c : CanonReq) (hs : HeaderList) (v : Bytes) (rest : List Bytes)
     (hh : c.headers = normalizeHeaders hs []) (hv : valuesOf hs AUTHORIZATION = v :: rest)
     (hq : assocGet c.params X_AMZ_ALGORITHM = none) :
     extractAuthParams c = authParamsFromHeader c (normHeaderValue v) := by
-  sorry
+  unfold extractAuthParams
+  rw [hh, normalizeHeaders_get', hv, hq]
+  simp
 
 /-- The key=value view of one Authorization parameter (after trimming). -/
 def paramKV (p : Bytes) : Option (Bytes × Bytes) :=
@@ -34,13 +38,23 @@ theorem last_param_wins (ps : List Bytes) (m : List (Bytes × Bytes)) (k : Bytes
       match paramKV p with
       | some (k', v) => if k' = k then some v else none
       | none => none) := by
-  sorry
+  have hf : (fun p =>
+      match paramKV p with
+      | some (k', v) => if k' = k then some v else none
+      | none => none) = paramSel k := by
+    funext p
+    unfold paramKV paramSel
+    rcases splitFirst 0x3D (trimAscii p) with ⟨k', _ | v⟩ <;> rfl
+  rw [hf, authHeaderParamLoop_get ps [] m k h]
+  simp [assocGet]
 
 /-- Of a repeated query parameter the first value is used: in a grouped parameter list, the first
 value of a name is the value of its first occurrence. -/
 theorem first_query_value (l : List (Bytes × Bytes)) (k : Bytes) :
     firstOf (groupPairs l) k = (l.find? fun kv => kv.1 = k).map (·.2) := by
-  sorry
+  unfold firstOf
+  rw [groupPairs_get, ← List.head?_filter]
+  cases List.filter (fun kv : Bytes × Bytes => decide (kv.1 = k)) l <;> simp
 
 /-- `X-Amz-Date` is preferred to `Date`; of several, the first; of several tokens, the first. -/
 theorem date_and_token_selection (c : CanonReq) (ah : Bytes) (ap : AuthParams)
@@ -50,7 +64,22 @@ theorem date_and_token_selection (c : CanonReq) (ah : Bytes) (ap : AuthParams)
        | some d => d
        | none => (firstOf c.headers DATE).getD []) ∧
     ap.sessionToken = (firstOf c.headers X_AMZ_SECURITY_TOKEN_LOWER).map latin1ToString := by
-  sorry
+  unfold authParamsFromHeader at h
+  simp only at h
+  split at h
+  · cases h
+  · split at h
+    · cases h
+    · cases h
+    · split at h
+      · next hd =>
+        cases h
+        refine ⟨?_, rfl⟩
+        split at hd
+        · next d' hd' => rw [hd']; simp at hd; rw [hd]
+        · next hn =>
+          rw [hn]; simp [hd]
+      · cases h
 
 /-- The query carrier takes the first value of each `X-Amz-*` parameter (percent-decoded). -/
 theorem query_selection (c : CanonReq) (alg : Bytes) (ap : AuthParams) (h : authParamsFromQuery c alg = .ok ap) :
@@ -60,13 +89,34 @@ theorem query_selection (c : CanonReq) (alg : Bytes) (ap : AuthParams) (h : auth
     (match firstOf c.params X_AMZ_SECURITY_TOKEN with
      | some v => ∃ t, unescapeUri v = .ok t ∧ ap.sessionToken = some t
      | none => ap.sessionToken = none) := by
-  sorry
+  unfold authParamsFromQuery at h
+  split at h
+  · cases h
+  · split at h
+    · next cred sig sh date hc hs hsh hdt =>
+      split at h
+      all_goals first | cases h | skip
+      next cred' sig' sh' date' tok hc' hs' hsh' hdt' htok =>
+      refine ⟨⟨cred, hc, hc'⟩, ⟨sig, hs, hs'⟩, ⟨date, hdt, hdt'⟩, ?_⟩
+      simp only
+      unfold unescapeOpt at htok
+      split at htok
+      · next hn => rw [hn]; cases htok; rfl
+      · next v hv =>
+        rw [hv]
+        cases hu : unescapeUri v with
+        | ok t => rw [hu] at htok; simp at htok; exact ⟨t, hu, htok.symm⟩
+        | err e => rw [hu] at htok; simp at htok
+        | panic e => rw [hu] at htok; simp at htok
+    · cases h
 
 /-- A request carrying both an Authorization header and an `X-Amz-Algorithm` parameter is refused. -/
 theorem both_carriers_refused (c : CanonReq) (x y : List Bytes)
     (hx : assocGet c.headers AUTHORIZATION = some x) (hy : assocGet c.params X_AMZ_ALGORITHM = some y) :
     extractAuthParams c = .err .SignatureDoesNotMatch := by
-  sorry
+  unfold extractAuthParams
+  rw [hx, hy]
+  cases x <;> cases y <;> rfl
 
 /-- … at the entry point too, without any key lookup. -/
 theorem both_carriers_refused_validate {σ : Type} (H : Bytes → Bytes) (cfg : Config) (P : Provider σ) (s : σ)
@@ -74,13 +124,17 @@ theorem both_carriers_refused_validate {σ : Type} (H : Bytes → Bytes) (cfg : 
     (hfp : fromRequestParts H cfg.opts cfg.other req = .ok fp)
     (hx : assocGet fp.creq.headers AUTHORIZATION = some x) (hy : assocGet fp.creq.params X_AMZ_ALGORITHM = some y) :
     (validate H cfg P s req).out = .err .SignatureDoesNotMatch ∧ (validate H cfg P s req).calls = [] := by
-  sorry
+  have he := both_carriers_refused fp.creq x y hx hy
+  unfold validate
+  simp only [hfp, getAuthenticator, getAuthParams, he]
+  exact ⟨trivial, trivial⟩
 
 /-- Neither carrier: missing authentication token. -/
 theorem no_carrier (c : CanonReq)
     (hx : assocGet c.headers AUTHORIZATION = none) (hy : assocGet c.params X_AMZ_ALGORITHM = none) :
     extractAuthParams c = .err .MissingAuthenticationToken := by
-  sorry
+  unfold extractAuthParams
+  rw [hx, hy]
 
 example : authHeaderParamLoop [b!" Signature=bad", b!"Signature=good "] [] = .ok [(b!"Signature", b!"good")] := by decide
 example : firstOf (groupPairs [(b!"X-Amz-Date", b!"1"), (b!"a", b!"x"), (b!"X-Amz-Date", b!"2")]) b!"X-Amz-Date" = some b!"1" := by
